@@ -403,6 +403,8 @@ def c11_jobs(tier, seed):
     # word-level kernels and m4ri_word_to_str (documented buffer size) under the sanitizers
     jobs.append(TraceJob(ASAN, 'kernels', shards=2 if q else 4, args=['--cases', 40 if q else 300], label='kernels@asan', timeout=3400))
     jobs.append(TraceJob(SMALL, 'baddims', shards=1 if q else 4, args=['--cases', 300 if q else 3000, '--extra', 'views'], label='baddims-views@' + SMALL, timeout=3400))
+    # the multi-core front ends are checked wrappers too (OpenMP build only)
+    jobs.append(TraceJob('small_sse_cache_omp', 'baddims', shards=1 if q else 2, args=['--cases', 300 if q else 2000], label='baddims@small_sse_cache_omp', timeout=3400, env={'OMP_NUM_THREADS': '3'}))
     for fam, n in ALL_FAMS:   # leak accounting (exact without the allocator caches)
         jobs.append(TraceJob(TS, fam, shards=1 if q else 2, args=['--cases', n // 4 if q else n, '--extra', 'nobig'], label='%s-leak@%s' % (fam, TS), timeout=3400))
     return jobs
